@@ -14,6 +14,7 @@ import (
 	"sort"
 	"strconv"
 	"strings"
+	"testing/iotest"
 
 	"shanhu.io/g/sniproxy"
 	"verif/harness/hx"
@@ -79,14 +80,56 @@ func kvGet(ws []string, k string) string {
 }
 
 type ctx struct {
-	rep *hx.Report
-	j   *hx.Journal
+	rep   *hx.Report
+	j     *hx.Journal
+	quiet bool // a re-run under another reader shape: only the canonical output matters
+}
+
+// readerShapes: how the bytes of a frame and the end of the frame reach the decoder.  A websocket
+// message reader (and any other io.Reader) may deliver data in pieces and may report io.EOF
+// together with the last bytes; what a frame decodes to must not depend on it.
+var readerShapes = []struct {
+	name string
+	wrap func(io.Reader) io.Reader
+}{
+	{"one-byte-reads", iotest.OneByteReader},
+	{"eof-with-last-data", iotest.DataErrReader},
+	{"half-reads", iotest.HalfReader},
+	{"one-byte-reads+eof-with-last-data", func(r io.Reader) io.Reader { return iotest.DataErrReader(iotest.OneByteReader(r)) }},
+}
+
+// runOpShapes executes the op with the plain reader (that result is compared with the model and
+// feeds the oracles) and again under every other reader shape.
+func (c *ctx) runOpShapes(line string) string {
+	out := c.runOp(line)
+	if c.quiet || !(strings.HasPrefix(line, "dec ") || strings.HasPrefix(line, "srv ") || strings.HasPrefix(line, "cli ")) {
+		return out
+	}
+	q := &ctx{rep: c.rep, j: c.j, quiet: true}
+	for _, sh := range readerShapes {
+		sniproxy.VerifWrapReader = sh.wrap
+		got := q.runOp(line)
+		sniproxy.VerifWrapReader = nil
+		c.rep.Count("reader-shape:" + sh.name)
+		if got != out {
+			c.rep.Fail("decode-depends-on-reader:"+sh.name+":"+strings.Fields(line)[0],
+				fmt.Sprintf("the same bytes decode to %q when read from a plain reader and to %q when the reader delivers them as %s", out, got, sh.name), []string{line})
+			break
+		}
+	}
+	return out
 }
 
 const allocSlack = 96 << 10
 
 // runOp executes one op line on the implementation and returns its canonical
 // output; it also evaluates the direct oracle.
+func (c *ctx) fail(key, desc string, ops []string) {
+	if !c.quiet {
+		c.rep.Fail(key, desc, ops)
+	}
+}
+
 func (c *ctx) runOp(line string) string {
 	ws := strings.Fields(line)
 	if len(ws) == 0 {
@@ -114,7 +157,7 @@ func (c *ctx) runOp(line string) string {
 		r := sniproxy.VerifDecode(ws[1], capBuf, body)
 		switch r.Outcome {
 		case "panic":
-			c.rep.Fail("decode-panic", "decoding a frame body panicked: "+r.Detail, []string{line})
+			c.fail("decode-panic", "decoding a frame body panicked: "+r.Detail, []string{line})
 			return "panic"
 		case "ok":
 			c.checkAlloc("decode-alloc", r.Alloc, len(body), capBuf, line)
@@ -128,7 +171,7 @@ func (c *ctx) runOp(line string) string {
 		}
 		if r.Detail == "EOF" {
 			// a clean io.EOF from the decoder is what callers treat as the graceful end of a stream
-			c.rep.Fail("truncation-reported-as-eof", "a frame body that ends early is reported as a clean io.EOF instead of an unexpected-EOF error", []string{line})
+			c.fail("truncation-reported-as-eof", "a frame body that ends early is reported as a clean io.EOF instead of an unexpected-EOF error", []string{line})
 		}
 		return "error " + r.Detail
 	case "srvseq":
@@ -140,7 +183,7 @@ func (c *ctx) runOp(line string) string {
 		c.j.Risky(line)
 		res, p := sniproxy.VerifServerFrames(frames)
 		if p != "" {
-			c.rep.Fail("srv-panic", "startCall panicked: "+p, []string{line})
+			c.fail("srv-panic", "startCall panicked: "+p, []string{line})
 			return "panic"
 		}
 		var outs []string
@@ -156,7 +199,7 @@ func (c *ctx) runOp(line string) string {
 			// direct oracle: each request still holds what its own frame carried
 			o, id, typ, vals, _ := sniproxy.VerifServerFrame(frames[i])
 			if o == "request" && r.Outcome == "request" && (id != r.ID || typ != r.Typ || showVals(vals) != showVals(r.Vals)) {
-				c.rep.Fail("request-altered-by-later-frame", fmt.Sprintf("request %d of a sequence decoded on one server holds [%s] after the later frames were decoded; its own frame carries [%s]", i, showVals(r.Vals), showVals(vals)), []string{line})
+				c.fail("request-altered-by-later-frame", fmt.Sprintf("request %d of a sequence decoded on one server holds [%s] after the later frames were decoded; its own frame carries [%s]", i, showVals(r.Vals), showVals(vals)), []string{line})
 			}
 		}
 		return strings.Join(outs, " ; ")
@@ -165,7 +208,7 @@ func (c *ctx) runOp(line string) string {
 		c.j.Risky(line)
 		out, id, typ, vals, alloc := sniproxy.VerifServerFrame(frame)
 		if strings.HasPrefix(out, "panic") {
-			c.rep.Fail("srv-panic", "startCall panicked: "+out, []string{line})
+			c.fail("srv-panic", "startCall panicked: "+out, []string{line})
 			return "panic"
 		}
 		c.checkAlloc("srv-alloc", alloc, len(frame), 0, line)
@@ -195,7 +238,7 @@ func (c *ctx) runOp(line string) string {
 		r := sniproxy.VerifClientFrame(pend, capBuf, frame)
 		switch {
 		case r.Panic != "":
-			c.rep.Fail("cli-panic", "handleMessage panicked: "+r.Panic, []string{line})
+			c.fail("cli-panic", "handleMessage panicked: "+r.Panic, []string{line})
 			return "panic"
 		case strings.HasPrefix(r.Err, "got error: "):
 			return "fatal errcode=" + strings.TrimPrefix(r.Err, "got error: ")
@@ -212,6 +255,9 @@ func (c *ctx) runOp(line string) string {
 		case r.Completed && r.CompletedErr != "":
 			return fmt.Sprintf("completeErr id=%d", r.FetchedID)
 		case r.Completed:
+			if respOf[pend[r.FetchedID]] == "readResponse" && len(r.Vals) > 0 && len(r.Vals[0].B) <= capBuf && !r.InPlace {
+				c.fail("read-reply-not-in-callers-buffer", fmt.Sprintf("a read reply of %d bytes that fits the %d-byte buffer supplied by the caller was decoded into another slice (tunnel.Read returns the count and expects the bytes in its buffer)", len(r.Vals[0].B), capBuf), []string{line})
+			}
 			return fmt.Sprintf("complete id=%d vals=[%s]", r.FetchedID, showVals(r.Vals))
 		}
 		return "error " + r.Err
@@ -220,11 +266,11 @@ func (c *ctx) runOp(line string) string {
 		c.j.Risky(line)
 		out, n, alloc := sniproxy.VerifHandleRead(v, 64)
 		if strings.HasPrefix(out, "panic") {
-			c.rep.Fail("read-panic", "handleRead panicked: "+out, []string{line})
+			c.fail("read-panic", "handleRead panicked: "+out, []string{line})
 			return "panic"
 		}
 		if alloc > (4<<20)+allocSlack {
-			c.rep.Fail("read-alloc", fmt.Sprintf("handleRead allocated %d bytes for one request", alloc), []string{line})
+			c.fail("read-alloc", fmt.Sprintf("handleRead allocated %d bytes for one request", alloc), []string{line})
 		}
 		return fmt.Sprintf("impl %s n=%d alloc=%d", out, n, alloc)
 	}
@@ -232,6 +278,9 @@ func (c *ctx) runOp(line string) string {
 }
 
 func (c *ctx) checkAlloc(key string, alloc uint64, received, capBuf int, line string) {
+	if c.quiet {
+		return
+	}
 	// io.ReadAll grows its buffer geometrically (x1.25 once large): the slices it allocates on the
 	// way add up to about six times the bytes read; "in proportion" is a constant factor, so 8x.
 	bound := uint64(8*received+capBuf) + allocSlack
@@ -298,7 +347,7 @@ func (g *gen) num() uint64 {
 func (g *gen) bytesLen() int {
 	ls := []int{0, 1, 2, 7, 8, 9, 15, 16, 17, 255, 256, 257}
 	if g.big {
-		ls = append(ls, 4095, 4096, 4097, 65535, 65536, 65537, 1<<20 + 3)
+		ls = append(ls, 4095, 4096, 4097, 65535, 65536, 65537, 1<<20+3)
 	} else {
 		ls = append(ls, 4096, 4097)
 	}
@@ -628,7 +677,7 @@ func main() {
 
 	impl := make([]string, len(ops))
 	for i, op := range ops {
-		impl[i] = c.runOp(op)
+		impl[i] = c.runOpShapes(op)
 	}
 	c.j.Clear()
 
